@@ -574,7 +574,17 @@ def reorg_inv(F):
         def select_arms(m):
             sc = peel(m.get("scrut") or {})
             if sc.get("k") != "Tup":
-                return None
+                # `match was_import { true if .. => .., false if .. => .., _ => .. }`
+                v = val(sc)
+                if v is None:
+                    return None
+                out = []
+                for i, arm in enumerate(m["arms"]):
+                    t_ = str(arm["pat"]) if arm["pat"].get("k") in ("Lit", "Expr") else ""
+                    lit = True if "Bool(true)" in t_ else (False if "Bool(false)" in t_ else None)
+                    if lit is None or lit == v:
+                        out.append(i)
+                return out
             vals = [val(e) for e in sc["elems"]]
             if all(v is None for v in vals):
                 return None
